@@ -12,6 +12,21 @@ def last(v):
     return sel(v, sub(T.size(v), ONE))
 
 
+def _by_case(s, c):
+    """the returned value under `c` and under `not c`, whatever the spelling (early return, if/else,
+    conditional expression, inverted test)"""
+    a, b = c[1], c[2]
+    def under(v):
+        m = {('==', a, b): T.TRUE if v else T.FALSE, ('==', b, a): T.TRUE if v else T.FALSE,
+             ('!=', a, b): T.FALSE if v else T.TRUE, ('!=', b, a): T.FALSE if v else T.TRUE}
+        if T.is_num(b):
+            # size() > 0 / size() >= 1 for `!= 0`
+            m[('<', b, a)] = T.FALSE if v else T.TRUE
+            m[('>', a, b)] = T.FALSE if v else T.TRUE
+        return T.subst(s.ret, m)
+    return {c: under(True), T.lnot(c): under(False)}
+
+
 def check(ctx):
     p = ctx.prog
     # ---------------------------------------------------------------- R1 results record the state used
@@ -72,7 +87,7 @@ def check(ctx):
             T.lnot(('==', T.size(res), ZERO)): ('hcall', 'hep::vegas_refine_pdf', fld(last(res), 'pdf_'),
                                                 fld(TH, 'alpha_'), fld(last(res), 'adjustment_data_')),
         }
-        got = {T.conj(pc): v for pc, v in s.returns}
+        got = _by_case(s, ('==', T.size(res), ZERO))
         if got == want:
             ctx.holds('R2.next_grid', fsite(f), 'pdf() = first grid without results, else '
                       'vegas_refine_pdf(last.pdf, alpha_, last.adjustment_data)')
@@ -96,7 +111,7 @@ def check(ctx):
                                                 fld(last(res), 'channel_weights_'), fld(last(res), 'adjustment_data_'),
                                                 fld(TH, 'min_weight_'), fld(TH, 'beta_')),
         }
-        got = {T.conj(pc): v for pc, v in s.returns}
+        got = _by_case(s, ('==', T.size(res), ZERO))
         callee = p.one('hep::multi_channel_refine_weights')
         roles = [q.name for q in callee.params]
         if roles != ['weights', 'adjustment_data', 'minimum_weight', 'beta']:
